@@ -366,7 +366,9 @@ class Lifecycle:
                 fields = []
                 for name, op in zip(rv["fields"], rv["ops"]):
                     v = ai._eval_operand(op, store)
-                    if v is None or v[0] == "agg":
+                    if v is not None and v[0] == "t":
+                        pass
+                    elif v is None or v[0] not in ("c", "e"):
                         v = ("t", self.tr.norm(self.tr.operand(op)))
                     fields.append((name, v))
                 return ("agg", (rv["variant"], tuple(fields), bb))
